@@ -20,17 +20,20 @@ fn main() {
             let mut st = codec::State {
                 dicts: std::collections::HashMap::new(),
             };
-            // watchdog: a case that runs longer than VERIF_CASE_TIMEOUT seconds (default 30) is a hang; the
+            // watchdog: a case that runs longer than VERIF_CASE_TIMEOUT seconds (default 15; six times that for socket / script cases) is a hang; the
             // process exits with status 97 and the orchestrator attributes it to the case it died on
-            let limit_ms: u64 = std::env::var("VERIF_CASE_TIMEOUT").ok().and_then(|s| s.parse::<u64>().ok()).unwrap_or(30) * 1000;
+            let limit_ms: u64 = std::env::var("VERIF_CASE_TIMEOUT").ok().and_then(|s| s.parse::<u64>().ok()).unwrap_or(15) * 1000;
+            let slow_case = std::sync::Arc::new(std::sync::atomic::AtomicBool::new(false));
             let started = std::sync::Arc::new(std::sync::atomic::AtomicU64::new(0));
             let t0 = std::time::Instant::now();
             {
                 let started = std::sync::Arc::clone(&started);
+                let slow_case = std::sync::Arc::clone(&slow_case);
                 std::thread::spawn(move || loop {
                     std::thread::sleep(std::time::Duration::from_millis(250));
                     let s = started.load(std::sync::atomic::Ordering::SeqCst);
-                    if s != 0 && (t0.elapsed().as_millis() as u64).saturating_sub(s) > limit_ms {
+                    let lim = if slow_case.load(std::sync::atomic::Ordering::SeqCst) { limit_ms * 6 } else { limit_ms };
+                    if s != 0 && (t0.elapsed().as_millis() as u64).saturating_sub(s) > lim {
                         std::process::exit(97);
                     }
                 });
@@ -46,6 +49,10 @@ fn main() {
                 let r = if line.is_empty() || line.starts_with('#') {
                     String::new()
                 } else {
+                    // commands that talk to real sockets or play long scripts get six times the limit of pure codec cases
+                    let slow = line.starts_with("NET") || line.starts_with("TLS") || line.starts_with("RECONN") || line.starts_with("CL ")
+                        || line.starts_with("SV") || line.starts_with("SD") || line.starts_with("SE");
+                    slow_case.store(slow, std::sync::atomic::Ordering::SeqCst);
                     started.store(t0.elapsed().as_millis() as u64 + 1, std::sync::atomic::Ordering::SeqCst);
                     let r = codec::handle(&mut st, &line);
                     started.store(0, std::sync::atomic::Ordering::SeqCst);
